@@ -39,6 +39,9 @@ type Suite struct {
 	Built   *abs.Built
 	Files   *protoregistry.Files
 	Skipped int
+	// cases whose abstract request is addressed to the emitted TypeScript server from the outset
+	// (server = "ts" in the exported case): never sent to the Go server
+	TSCases []*Case
 }
 
 func NewSuite(prefix string) *Suite { return &Suite{Prefix: prefix, byKey: map[string]*Shape{}} }
@@ -94,7 +97,12 @@ func (b *Builder) Finish() (*Suite, error) {
 			s.Skipped++
 			continue
 		}
-		s.Cases = append(s.Cases, &Case{ID: len(s.Cases) + 1, A: a, C: c, RpcKey: p.sh.Key, Origin: p.origin, Note: note})
+		cs := &Case{ID: len(s.Cases) + len(s.TSCases) + 1, A: a, C: c, RpcKey: p.sh.Key, Origin: p.origin, Note: note}
+		if a.Server == "ts" {
+			s.TSCases = append(s.TSCases, cs)
+		} else {
+			s.Cases = append(s.Cases, cs)
+		}
 	}
 	return s, nil
 }
@@ -292,7 +300,7 @@ func (s *Suite) AbstractResp(sh *Shape, e drv.Event) map[string]any {
 	hookHdr := false
 	if hs, ok := e["headers"].([]any); ok {
 		for _, h := range hs {
-			if p, ok := h.([]any); ok && len(p) == 2 && p[0] == "X-Hook" && p[1] == "set" {
+			if p, ok := h.([]any); ok && len(p) == 2 && strings.EqualFold(fmt.Sprint(p[0]), "X-Hook") && p[1] == "set" {
 				hookHdr = true
 			}
 		}
@@ -482,18 +490,37 @@ func runTrace(lines []string, dev []string) (*tlc.Result, error) {
 
 // TSView is the sub-suite of the JSON cases re-targeted at the emitted TypeScript server: same
 // shapes, schema and concrete requests, abstract requests marked server = "ts".
-func (s *Suite) TSView() *Suite {
+// retarget = also the Go server's cases (C02 / C09: the statements speak of both servers).
+func (s *Suite) TSView(retarget bool) *Suite {
 	t := &Suite{Prefix: s.Prefix, Shapes: s.Shapes, byKey: s.byKey, Schema: s.Schema, Built: s.Built, Files: s.Files}
-	for _, c := range s.Cases {
+	fits := func(c *Case) bool {
 		if c.A.Body.Ctype != "json" {
-			continue // the TS server speaks JSON only
+			return false // the TS server speaks JSON only
 		}
 		if c.A.Body.Cls == "malformed" {
-			continue // what a server answers to an undecodable body is C11's statement, made for the Go server
+			return false // what a server answers to an undecodable body is C11's statement, made for the Go server
 		}
-		cp := *c
-		cp.A.Server = "ts"
-		t.Cases = append(t.Cases, &cp)
+		switch c.A.Handler.Kind {
+		case "ok", "plain", "validationError":
+		default:
+			return false // handlers of the TS server return a value or throw
+		}
+		// the TS hook (onError) returns a whole Response
+		return !c.A.Hook.On || (c.A.Hook.Body && !c.A.Hook.Msg)
+	}
+	if retarget {
+		for _, c := range s.Cases {
+			if fits(c) {
+				cp := *c
+				cp.A.Server = "ts"
+				t.Cases = append(t.Cases, &cp)
+			}
+		}
+	}
+	for _, c := range s.TSCases {
+		if fits(c) {
+			t.Cases = append(t.Cases, c)
+		}
 	}
 	return t
 }
